@@ -69,16 +69,15 @@ def run(ctx) -> None:
   cast = pv.methods['cast']
   want = {'INTERNAL': 'self.value', 'BOOLEAN': 'self.as_bool', 'INTEGER': 'self.as_int', 'FLOAT': 'self.as_float'}
   members = [k for k in ext.assigns if not k.startswith('_')]
+  from vzstatic import enumeval
+  par = [p_ for p_ in cast.params if p_ != 'self'][0]
   arms: Dict[str, str] = {}
-  last = None
-  for n in ast.walk(cast.node):
-    if isinstance(n, ast.If) and 'external_type == ExternalType.' in unparse(n.test, 0):
-      m = unparse(n.test, 0).rsplit('.', 1)[-1]
-      rets = [r for st in n.body for r in ast.walk(st) if isinstance(r, ast.Return)]
-      arms[m] = unparse(rets[0].value, 0) if rets and rets[0].value is not None else ''
-      last = n
+  for m in members:
+    r = enumeval.run_function(cast.node.body, {par: m})
+    arms[m] = unparse(r, 0) if isinstance(r, ast.AST) else ('?' if r is enumeval.UNKNOWN else str(r))
+  unknown = enumeval.run_function(cast.node.body, {par: '<not a member>'})
   probs = [f'{m}: returns `{arms.get(m)}`, expected `{want.get(m)}`' for m in members if arms.get(m) != want.get(m)]
-  ends = last is not None and last.orelse and isinstance(last.orelse[-1], ast.Raise)
+  ends = unknown == 'raise'
   ctx.check(not probs and ends, 'R1', 'ParameterValue.cast', cast.node, f'{len(arms)} arms for {members}, else raise',
             '; '.join(probs) or 'unknown external types do not raise', construct='; '.join(probs) or 'else', func=cast.qualname)
   # ------------------------------------------------------------------ R2
@@ -135,41 +134,87 @@ def run(ctx) -> None:
             construct='length-check', func=pp.qualname)
   te = sc.methods['_trial_to_external_values']
   g2 = cfgmod.CFG(te.node)
+  from vzstatic import pathcond
   emit = [n for n in g2.nodes if n.kind == 'stmt' and isinstance(n.ast, ast.Assign) and any(
       isinstance(t, ast.Subscript) and dotted(t.value) == 'external_values' for t in n.ast.targets)]
-  t_parent = [n for n in g2.nodes if n.kind == 'test' and 'parent_name not in parameter_values' in unparse(n.ast, 0)]
-  t_match = [n for n in g2.nodes if n.kind == 'test' and 'not in pc.matching_parent_values' in unparse(n.ast, 0)]
-  def skips(tn):
-    # true branch must not reach the emission within the same iteration (continue)
-    t = [m for m, lab in tn.succs if lab == 'T']
-    return bool(t) and isinstance(t[0].ast, ast.Continue)
-  ok4 = bool(emit and t_parent and t_match) and skips(t_parent[0]) and skips(t_match[0])
-  # both tests are control-dependent on `parent_name is not None` only
-  ctx.check(ok4, 'R4', 'child emitted only if its parent was emitted', te.node, 'parent-not-seen -> continue',
-            'a child parameter is presented although its parent was not', construct='parent-seen', func=te.qualname)
-  pvdef = 'parent_value = parameter_values[parent_name]' in unparse(te.node, 0)
-  ctx.check(ok4 and pvdef, 'R4', 'child emitted only if the parent value matches', te.node,
-            'parent_value not in matching_parent_values -> continue',
-            'inactive children (parent value outside their matching values) are presented', construct='parent-match', func=te.qualname)
+  if not emit:
+    raise AnalysisError('_trial_to_external_values: store into external_values not found')
+  loops = [n for n in g2.nodes if n.kind == 'test' and isinstance(getattr(n.ast, '_vz_parent', None), ast.While)
+           and n.ast._vz_parent.test is n.ast]
+  # the dictionary of values seen so far: keyed by pc.name inside the loop
+  seen_dicts = {dotted(t.value) for n in g2.nodes if n.kind == 'stmt' and isinstance(n.ast, ast.Assign) for t in n.ast.targets
+                if isinstance(t, ast.Subscript) and unparse(t.slice, 0) == 'pc.name' and dotted(t.value) and dotted(t.value) != 'external_values'}
+  bad_parent = bad_match = None
+  n_paths = 0
+  for e_ in emit:
+    hdr = [l for l in loops if e_ in g2.reachable([l])]
+    if not hdr:
+      raise AnalysisError('_trial_to_external_values: emission is not inside the work-list loop')
+    starts = [m for m, lab in hdr[-1].succs if lab == 'T']
+    for path in pathcond.paths(g2, starts, e_, stop=[hdr[-1]]):
+      n_paths += 1
+      dec = pathcond.conditions(path)
+
+      def parent_seen(a):
+        is_none = a.get(lambda k: k == 'parent_name is None')
+        if is_none is True:
+          return True
+        return a.get(lambda k: k.startswith('parent_name in ') and k[len('parent_name in '):] in seen_dicts) is True
+
+      def parent_matches(a):
+        is_none = a.get(lambda k: k == 'parent_name is None')
+        if is_none is True:
+          return True
+        return a.get(lambda k: k.endswith(' in pc.matching_parent_values') and '[parent_name]' in k
+                     and k.split('[parent_name]')[0] in seen_dicts) is True
+      ok_p, cex_p = pathcond.implies(dec, parent_seen)
+      ok_m, cex_m = pathcond.implies(dec, parent_matches)
+      if not ok_p and bad_parent is None:
+        bad_parent = (e_, cex_p)
+      if not ok_m and bad_match is None:
+        bad_match = (e_, cex_m)
+  if n_paths == 0:
+    raise AnalysisError('_trial_to_external_values: no path from the loop head to the emission')
+  ok4 = bad_parent is None
+  ctx.check(bad_parent is None, 'R4', 'child emitted only if its parent was emitted', te.node,
+            f'on all {n_paths} paths to the emission: root parameter, or parent name among the values seen so far',
+            'a child parameter is presented although its parent was not' +
+            (f' (path with {bad_parent[1]})' if bad_parent else ''), construct='parent-seen', func=te.qualname)
+  ctx.check(bad_match is None, 'R4', 'child emitted only if the parent value matches', te.node,
+            'on all paths to the emission: root parameter, or seen[parent] in pc.matching_parent_values',
+            'inactive children (parent value outside their matching values) are presented' +
+            (f' (path with {bad_match[1]})' if bad_match else ''), construct='parent-match', func=te.qualname)
   okc = any(isinstance(c, ast.Call) and isinstance(c.func, ast.Attribute) and c.func.attr == 'cast'
             and c.args and unparse(c.args[0], 0) == 'pc.external_type' for c in ast.walk(te.node))
   ctx.check(okc, 'R4', 'values cast with the parameter\'s external type', te.node, '.cast(pc.external_type)',
             'external values are not produced by ParameterValue.cast(pc.external_type)', construct='cast', func=te.qualname)
   # R5
-  t = unparse(pp.node, 0)
-  uses_parser = 'parse_multi_dimensional_parameter_name' in t
+  def is_parser(e: ast.AST) -> bool:
+    e = flow.resolve_local(pp.node, e)
+    return (dotted(e) or '').endswith('parse_multi_dimensional_parameter_name')
+  pcalls = [c for c in ast.walk(pp.node) if isinstance(c, ast.Call) and is_parser(c.func)]
+  uses_parser = bool(pcalls)
+  # the integer index is the second element of the parser's result
+  idx_names = set()
+  res_names = {t.id for n in ast.walk(pp.node) if isinstance(n, ast.Assign) and n.value in pcalls for t in n.targets if isinstance(t, ast.Name)}
+  for n in ast.walk(pp.node):
+    if isinstance(n, ast.Assign) and isinstance(n.targets[0], ast.Tuple) and len(n.targets[0].elts) == 2 \
+        and isinstance(n.value, ast.Name) and n.value.id in res_names and isinstance(n.targets[0].elts[1], ast.Name):
+      idx_names.add(n.targets[0].elts[1].id)
+  appended_pair = any(isinstance(c, ast.Call) and isinstance(c.func, ast.Attribute) and c.func.attr == 'append'
+                      and c.args and isinstance(c.args[0], ast.Tuple) and len(c.args[0].elts) == 2
+                      and isinstance(c.args[0].elts[0], ast.Name) and c.args[0].elts[0].id in idx_names for c in ast.walk(pp.node))
+
+  def first_elem_key(k: ast.AST) -> bool:
+    return isinstance(k, ast.Lambda) and len(k.args.args) == 1 and unparse(k.body, 0) == f'{k.args.args[0].arg}[0]' or \
+        (dotted(k) or '') in ('operator.itemgetter(0)',) or (isinstance(k, ast.Call) and unparse(k, 0) == 'operator.itemgetter(0)')
   sort_ok = False
   for c in ast.walk(pp.node):
-    if isinstance(c, ast.Call) and isinstance(c.func, ast.Attribute) and c.func.attr == 'sort':
-      for k in c.keywords:
-        if k.arg == 'key' and isinstance(k.value, ast.Lambda) and unparse(k.value.body, 0) in ('x[0]', f'{k.value.args.args[0].arg}[0]'):
-          sort_ok = True
-    if isinstance(c, ast.Call) and dotted(c.func) == 'sorted':
-      for k in c.keywords:
-        if k.arg == 'key' and isinstance(k.value, ast.Lambda) and unparse(k.value.body, 0).endswith('[0]'):
-          sort_ok = True
-  appended_pair = any(isinstance(c, ast.Call) and isinstance(c.func, ast.Attribute) and c.func.attr == 'append'
-                      and c.args and isinstance(c.args[0], ast.Tuple) and unparse(c.args[0].elts[0], 0) == 'index' for c in ast.walk(pp.node))
+    if isinstance(c, ast.Call) and ((isinstance(c.func, ast.Attribute) and c.func.attr == 'sort') or dotted(c.func) == 'sorted'):
+      keys = [k.value for k in c.keywords if k.arg == 'key']
+      rev = any(k.arg == 'reverse' and not (isinstance(k.value, ast.Constant) and k.value.value is False) for k in c.keywords)
+      if not rev and (not keys or first_elem_key(keys[0])):
+        sort_ok = True
   ctx.check(uses_parser, 'R5', 'indexed names grouped by parse_multi_dimensional_parameter_name', pp.node, 'parser used',
             'indexed parameters are not grouped by the name parser', construct='parser', func=pp.qualname)
   ctx.check(sort_ok and appended_pair, 'R5', 'grouped values sorted by integer index', pp.node,
@@ -178,13 +223,19 @@ def run(ctx) -> None:
   sel_parse = sel.methods['parse_multi_dimensional_parameter_name']
   sel_fmt = sel.methods['_multi_dimensional_parameter_name']
   rx = None
-  for n in ast.walk(sel_parse.node):
+  cands = [n for n in ast.walk(sel_parse.node)]
+  for nm in flow.names_in(sel_parse.node):
+    if nm in pcm.assigns:
+      cands += list(ast.walk(pcm.assigns[nm]))
+  for n in cands:
     if isinstance(n, ast.Constant) and isinstance(n.value, str) and '(?P<' in n.value:
       rx = n.value
   fm = None
   for n in ast.walk(sel_fmt.node):
     if isinstance(n, ast.Constant) and isinstance(n.value, str) and '{}' in n.value:
       fm = n.value
+    if isinstance(n, ast.JoinedStr):
+      fm = ''.join(v.value if isinstance(v, ast.Constant) else '{}' for v in n.values)
   ok5 = False
   detail = ''
   if rx and fm:
